@@ -62,21 +62,36 @@ def ob_chrom_order(ctx, res):
     if len(ifs) != 1 or not up(ifs[0]["then"]).startswith("{return Err("):
         res.fail("chromOrder/parallel/site", fn, "parallel source: expected one chromosome-order refusal")
         return
-    c = up(strip(ifs[0]["cond"]))
-    m = re.fullmatch(r"!self\.allow_out_of_order_chroms && (\w+)\.map\(\|(\w+)\| (\w+)\.1 (>|>=) \2\.1\)\.unwrap_or\(false\)", c)
-    if not m:
-        res.fail("chromOrder/parallel/form", ifs[0], "parallel refusal must be `!allow && next.map(|n| curr.1 > n.1).unwrap_or(false)`; got `%s`" % c)
-        return
     # curr/next come from pop()/last() of the index
-    pat = [n for n in walk_no_nested_fn(fn.body) if n.k == "let" and n["pat"].k == "p_tuple" and [up(e) for e in n["pat"]["elems"]] == [m.group(3), m.group(1)]]
-    if len(pat) != 1 or ".chrom_indices.pop()" not in up(pat[0]["init"]) or ".chrom_indices.last()" not in up(pat[0]["init"]):
-        res.fail("chromOrder/parallel/source", ifs[0], "(curr, next) must be the popped index entry and the following one")
+    pat = [n for n in walk_no_nested_fn(fn.body) if n.k == "let" and n["pat"].k == "p_tuple" and len(n["pat"]["elems"]) == 2 and n.get("init") is not None
+           and ".chrom_indices.pop()" in up(n["init"]) and ".chrom_indices.last()" in up(n["init"])]
+    if len(pat) != 1 or not all(e.k == "p_ident" for e in pat[0]["pat"]["elems"]):
+        res.undecided("chromOrder/parallel/source", ifs[0], "the (current, next) pair of index entries is not bound by one `let (curr, next) = match ..pop() { Some(c) => (c, ..last()), .. }`")
         return
+    curn, nxtn = [e["name"] for e in pat[0]["pat"]["elems"]]
+    from ..rules.interp import Interp, NotPure
+    from ..astq import _tnorm
+    nf = _tnorm(fn, strip(ifs[0]["cond"]))
+    rows = 0
+    for allow in (False, True):
+        for nxt in (None, 0, 2):        # next chromosome name ranks below / above the current one (adjacent entries are distinct)
+            env = {"self": {"__ref": True, "allow_out_of_order_chroms": allow}, curn: (10, 1), nxtn: None if nxt is None else ("some", (20, nxt))}
+            try:
+                got = Interp(ctx.ast, BD, extern={"None": None}).ev(nf, env, 0)
+            except NotPure as e:
+                res.undecided("chromOrder/parallel/form", ifs[0], "refusal condition `%s` is outside the fragment the rule evaluates (%s)" % (up(ifs[0]["cond"])[:100], e))
+                return
+            want = (not allow) and nxt is not None and 1 > nxt
+            rows += 1
+            if bool(got) != want:
+                res.fail("chromOrder/parallel/form", ifs[0], "parallel refusal must hold iff sorted input is required and the next index entry's chromosome sorts before the current one; "
+                                                             "`%s` gives %s for allow_out_of_order=%s, next=%s" % (up(ifs[0]["cond"])[:120], got, allow, {None: "none", 0: "smaller", 2: "greater"}[nxt]))
+                return
     sp = [x for x in walk_no_nested_fn(fn.body) if x.k == "call" and up(x["func"]) == "start_processing"]
     if not sp or sp[0].order < ifs[0].order:
         res.fail("chromOrder/parallel/order", ifs[0], "the refusal must precede start_processing of that chromosome")
         return
-    res.ok(ifs[0], "parallel source: Err when sorted input is required and curr %s next (adjacent index entries are distinct), before start_processing" % m.group(4))
+    res.ok(ifs[0], "parallel source: Err iff sorted input is required and curr > next (adjacent index entries are distinct; %d cases evaluated), before start_processing" % rows)
     # a record of another chromosome inside a chromosome's slice is refused
     tk = [n for n in walk_no_nested_fn(fn.body) if n.k == "arm" and a_guard(n, r"\w+ != curr_chrom")]
     if len(tk) != 1 or "return Err(" not in up(tk[0]["body"]):
